@@ -66,6 +66,7 @@ type Options struct {
 // Thread is one scheduled goroutine.
 type Thread struct {
 	ID      int
+	yielded bool // gave the processor away (Gosched) and has not run since
 	Name    string
 	wake    chan struct{}
 	exitCh  chan struct{}
@@ -333,18 +334,46 @@ func (s *Sched) schedule(t *Thread, alive bool) {
 	for {
 		var en []*Thread
 		curEnabled := alive && t.isEnabled()
-		if curEnabled {
+		// runtime.Gosched(): the thread gives the processor away.  By default the
+		// next enabled thread (round robin from the yielding one) runs, at no
+		// cost; staying, or picking another one, is a deviation.  Without this a
+		// loop that never blocks but yields (a poller) starves every other
+		// thread under the "keep running the current thread" default, which the
+		// Go scheduler does not do.
+		yield := curEnabled && t.desc == "yield"
+		if curEnabled && !yield {
 			en = append(en, t)
 		}
-		if !curEnabled || s.preemptible(t.desc) {
-			for _, u := range s.threads {
-				if u != t && u.isEnabled() {
-					en = append(en, u)
+		if !curEnabled || yield || s.preemptible(t.desc) {
+			if yield {
+				for k := 1; k < len(s.threads); k++ {
+					u := s.threads[(t.ID+k)%len(s.threads)]
+					if u != t && u.isEnabled() {
+						en = append(en, u)
+					}
+				}
+			} else {
+				// ascending ids, but a thread that gave the processor away and
+				// has not run since comes after those that did not (otherwise a
+				// yielding poller with a low id starves the threads behind it as
+				// soon as the one it yielded to blocks again)
+				for _, u := range s.threads {
+					if u != t && u.isEnabled() && !u.yielded {
+						en = append(en, u)
+					}
+				}
+				for _, u := range s.threads {
+					if u != t && u.isEnabled() && u.yielded {
+						en = append(en, u)
+					}
 				}
 			}
 		}
+		if yield {
+			en = append(en, t)
+		}
 		s.pruneTimers()
-		clock := len(s.timers) > 0 && (!s.opt.NoEarlyTimers || len(en) == 0) && (!curEnabled || s.preemptible(t.desc))
+		clock := len(s.timers) > 0 && (!s.opt.NoEarlyTimers || len(en) == 0) && (!curEnabled || s.preemptible(t.desc)) && !yield
 		n := len(en)
 		if clock {
 			n++
@@ -413,6 +442,10 @@ func (s *Sched) schedule(t *Thread, alive bool) {
 		if next == t {
 			return
 		}
+		if yield {
+			t.yielded = true
+		}
+		next.yielded = false
 		s.cur = next
 		next.wake <- struct{}{}
 		if alive {
@@ -434,7 +467,7 @@ func (s *Sched) stateKey(t *Thread, alive bool) string {
 		if s.opt.KeySteps {
 			steps = u.Steps
 		}
-		fmt.Fprintf(&sb, "T%d:%v,%v,%s,%d,%d,%v;", u.ID, u.started, u.exited, u.desc, steps, u.fired, u.rv)
+		fmt.Fprintf(&sb, "T%d:%v,%v,%s,%d,%d,%v,%v;", u.ID, u.started, u.exited, u.desc, steps, u.fired, u.rv, u.yielded)
 	}
 	// FIFO order of pending channel operations decides rendezvous partners
 	pend := []*Thread{}
